@@ -36,6 +36,9 @@ enum ABTI_verif_event_kind {
     ABTI_VEV_WL_BCAST = 13, /* a = waitlist: broadcast finished (list empty) */
     ABTI_VEV_WL_TIMEOUT = 14, /* a = waitlist, b = node, c = is_timedout */
     ABTI_VEV_WL_RETURN = 15, /* a = waitlist, b = node: waiter continues */
+    ABTI_VEV_DATA = 20,     /* a = object, b = field id, c = value stored */
+    ABTI_VEV_LOAD = 21,     /* a = object, b = field id, c = value read (lock-free read) */
+    ABTI_VEV_CALLBACK = 22, /* a = object: user callback about to be invoked */
     ABTI_VEV_USER = 1000    /* harness-defined kinds start here */
 };
 
